@@ -2616,7 +2616,12 @@ class DiskObjectStore(PackBasedObjectStore):
             # Look for MIDX in pack directory
             midx_file = os.path.join(self.pack_dir, "multi-pack-index")
             if os.path.exists(midx_file):
-                self._midx = load_midx(midx_file)
+                try:
+                    self._midx = load_midx(midx_file)
+                except FileNotFoundError:
+                    # Removed by a concurrent repack between the check and
+                    # the open: carry on without it.
+                    pass
         return self._midx
 
     def _get_pack_by_name(self, pack_name: str) -> Pack:
